@@ -543,7 +543,7 @@ use crate::internals::hash::parser_state::{ParseErrorKind, ParseErrorOrigin};
 /// Dual parser on every text of <= T bytes: accepts exactly what the RAW grammar accepts
 /// (capacity on the raw text), the object is valid, decompresses to the decoded raw
 /// content, the index is the comma / end; on failure the index is untouched.
-fn c04_dual_driver<const S1: usize, const S2: usize, const C1: usize, const C2: usize, const T: usize>(fixed_prefix: bool)
+fn c04_dual_driver<const S1: usize, const S2: usize, const C1: usize, const C2: usize, const T: usize>(fixed_prefix: bool, runfree: usize)
 where
     BlockHashSize<S1>: ConstrainedBlockHashSize,
     BlockHashSize<S2>: ConstrainedBlockHashSize,
@@ -557,7 +557,15 @@ where
         text[0] = b'3';
         text[1] = b':';
         text[2] = b':';
-        kani::assume(n >= 3);
+        kani::assume(n >= 3 + runfree);
+        // structured family: `runfree` base64 characters without equal neighbours, then a free tail
+        let mut i = 0;
+        while i < T {
+            if i >= 3 && i < 3 + runfree {
+                kani::assume(spec_b64(text[i]) != 0x40 && (i == 3 || text[i] != text[i - 1]));
+            }
+            i += 1;
+        }
     }
     let idx0: usize = kani::any();
     let mut idx = idx0;
@@ -600,17 +608,21 @@ where
 
 #[kani::proof]
 #[kani::unwind(66)]
-fn c04_dual_driver_short_t10() { c04_dual_driver::<64, 32, 16, 8, 10>(false) }
+fn c04_dual_driver_short_t10() { c04_dual_driver::<64, 32, 16, 8, 10>(false, 0) }
 #[kani::proof]
 #[kani::unwind(66)]
-fn c04_dual_driver_long_t10() { c04_dual_driver::<64, 64, 16, 16, 10>(false) }
+fn c04_dual_driver_long_t10() { c04_dual_driver::<64, 64, 16, 16, 10>(false, 0) }
 #[kani::proof]
 #[kani::unwind(66)]
-fn c04_dual_driver_short_t14() { c04_dual_driver::<64, 32, 16, 8, 14>(false) }
+fn c04_dual_driver_short_t14() { c04_dual_driver::<64, 32, 16, 8, 14>(false, 0) }
 /// capacity class: "3::" + up to 37 arbitrary bytes (block hash 2 reaches / exceeds 32)
 #[kani::proof]
 #[kani::unwind(66)]
-fn c04_dual_capacity_bh2_short_t40() { c04_dual_driver::<64, 32, 16, 8, 40>(true) }
+fn c04_dual_capacity_bh2_short_t40() { c04_dual_driver::<64, 32, 16, 8, 40>(true, 0) }
+/// capacity class, cheaply: "3::" + 29 run-free symbols + every byte string of <= 8 bytes
 #[kani::proof]
 #[kani::unwind(66)]
-fn c04_dual_capacity_bh2_short_t37() { c04_dual_driver::<64, 32, 16, 8, 37>(true) }
+fn c04_dual_capacity_bh2_short_tail() { c04_dual_driver::<64, 32, 16, 8, 40>(true, 29) }
+#[kani::proof]
+#[kani::unwind(66)]
+fn c04_dual_capacity_bh2_short_t37() { c04_dual_driver::<64, 32, 16, 8, 37>(true, 0) }
